@@ -1000,3 +1000,5 @@ def run(res, facts, tier):
     from . import c04_split
     c04_split.run_rule(res, facts, tier)
     c04_split.run_cdata_rule(res, facts, tier)
+    from . import c04_f2x
+    c04_f2x.run_rule(res, facts, tier)
